@@ -353,8 +353,8 @@ Definition wr_lvis (w : writer) (k : Z) : writer :=
 Definition wr_svis (w : writer) (b : bool) : writer :=
   mkWr (w_D w) (w_reg w) (w_name w) (w_state w) (w_file w) (w_vis w) (w_lost w) b (w_rv w) (w_lv w).
 
-(* read_hill_template_(): a record with h_it <= state_file_step is parsed and dropped *)
-Definition keep (S : Z) (h : hill) : bool := S <? hit h.
+(* read_hill_template_(): a record with h_it < state_file_step is parsed and dropped (<= before repair 11) *)
+Definition keep (S : Z) (h : hill) : bool := S <=? hit h.
 
 (* write_state_to_replicas() as one event: the hills file is restarted and the state file written *)
 Definition wr_state (w : writer) (S : Z) : writer :=
@@ -366,8 +366,10 @@ Definition wr_state (w : writer) (S : Z) : writer :=
    (a) write_replica_state_file(): the state file is renamed into place.
    Since repair 8 the code runs (b) then (a); before, (a) then (b). *)
 Definition wr_state_b (w : writer) : writer :=
-  mkWr (w_D w) (w_reg w) (w_name w) (w_state w) [] 0
-       (w_lost w ++ filter (keep (sf_step (w_state w))) (w_file w)) (w_sok w) (w_rv w) (w_lv w).
+  let f := w_lost w ++ w_file w in
+  (* how many of these records the state file in place already holds (all of them in the old order, none in the new) *)
+  let covered := (length (sf_hills (w_state w)) + length f - length (w_D w))%nat in
+  mkWr (w_D w) (w_reg w) (w_name w) (w_state w) [] 0 (skipn covered f) (w_sok w) (w_rv w) (w_lv w).
 Definition wr_state_a (w : writer) (S : Z) : writer :=
   mkWr (w_D w) (w_reg w) (w_name w) (mkSF S (w_D w)) (w_file w) (w_vis w) [] true (w_rv w) (w_lv w).
 
@@ -497,22 +499,26 @@ Definition pinit : pstate := (wr_init, None).
 (* every record of the hills file is later than the state file (false only in the old protocol, between the
    renaming of the state file and the restart of the hills file) *)
 Definition file_fresh (w : writer) : bool :=
-  forallb (fun h => sf_step (w_state w) <? hit h) (w_file w).
-
-Definition steps_ok (w : writer) (s : Z) : bool :=
-  (sf_step (w_state w) <=? s) && forallb (fun x => hit x <=? s) (w_D w).
+  forallb (fun h => sf_step (w_state w) <=? hit h) (w_file w).
 
 Definition is_nil (l : list hill) : bool := match l with [] => true | _ => false end.
 
+(* a state file written at step s: not before the state file in place nor before any hill, and at a later step than
+   the state file in place unless nothing was deposited since (two state files with the same step hold the same) *)
+Definition steps_ok (w : writer) (s : Z) : bool :=
+  (sf_step (w_state w) <=? s) && forallb (fun x => hit x <=? s) (w_D w) &&
+  ((sf_step (w_state w) <? s) || (is_nil (w_lost w) && is_nil (w_file w))).
+
 (* What is assumed of a trace: facts about how a walker numbers its own steps and orders its own actions.
-   A hill is deposited at a later step than the state file in place, and not in the middle of a state-file
-   rewrite; a state file is written at a step not before any hill in it and not before the previous state file.
+   A hill is deposited at a step not before the state file in place (at the same step: stepZeroData at the first
+   step of a run), and not in the middle of a state-file rewrite; a state file is written at a step not before any
+   hill in it and after the previous state file (or at the same step with nothing deposited in between).
    proto = true: write_state_to_replicas() restarts the hills file first and then renames the state file
    (PWStateB, PWStateA; the code since repair 8); proto = false: the other way round (the code before).
    NOTHING is assumed of the reader: it may exchange at any moment, also between the two halves. *)
 Definition ev_ok (proto : bool) (w : writer) (e : pev) : bool :=
   match e with
-  | PDeposit h => is_nil (w_lost w) && file_fresh w && (sf_step (w_state w) <? hit h)
+  | PDeposit h => is_nil (w_lost w) && file_fresh w && (sf_step (w_state w) <=? hit h)
   | PWState s | PSetup s _ => is_nil (w_lost w) && file_fresh w && steps_ok w s
   | PWStateB => if proto then file_fresh w else negb (file_fresh w) || is_nil (w_file w)
   | PWStateA s => if proto then is_nil (w_file w) && steps_ok w s
